@@ -135,7 +135,7 @@ func (c laCase) id() string {
 	if c.op == "TensorMul" {
 		ax = "|axes=" + strings.ReplaceAll(fmt.Sprint(c.axA, c.axB), " ", ",")
 	}
-	return fmt.Sprintf("C09|%s|%s|%s|%s|a=%s|b=%s|%s|%s|%s%s", c.op, c.d.Name, shapeStr(c.sa), shapeStr(c.sb), c.la, c.lb, c.mode, c.vs, c.api, ax)
+	return fmt.Sprintf(propPfx+"C09|%s|%s|%s|%s|a=%s|b=%s|%s|%s|%s%s", c.op, c.d.Name, shapeStr(c.sa), shapeStr(c.sb), c.la, c.lb, c.mode, c.vs, c.api, ax)
 }
 
 var laSupport = map[string]bool{}
